@@ -40,12 +40,13 @@ TB.LEAN_TY.update({
     "Onsets": "List Int", "Attr": "TzStr.Attr", "Res": "TzStr.Res", "OptRes": "Option TzStr.Res", "Kw": "ObjPy.Kw",
     "KwWd": "(Option Int × Option Int)", "Delta": "TzStr.Delta", "OptDelta": "Option TzStr.Delta",
     "DArg": "ObjPy.DArg", "Zone": "TzStr.Zone", "Jan1": "Int", "OrdSec": "Int", "OptOrdPair": "Option (Int × Int)",
+    "StrList": "List (List UInt8)", "OptCStr": "Option (List Char)", "NameFn": "ICal.ZComp → Option (List Char)",
 })
 TB.DEFAULT.update({"CStr": "[]", "Kw": "{}", "OptZComp": "none", "OptDt": "none", "DArg": "ObjPy.DArg.none",
                    "OptPStr": "none", "OptDelta": "none", "Res": "default"})
 TD.NARROW.update({"OptRes": "Res"})
 
-ELEM = {"ZCompList": "ZComp", "OptZCompList": "OptZComp", "KeyList": ("Dt", "Int")}
+ELEM = {"StrList": "Str", "ZCompList": "ZComp", "OptZCompList": "OptZComp", "KeyList": ("Dt", "Int")}
 OPT = {"ZComp": "OptZComp", "Dt": "OptDt", "Int": "OptInt", "PStr": "OptPStr", "Delta": "OptDelta", "Res": "OptRes"}
 
 # attributes of typed objects: type -> attr -> (template, type)
@@ -71,8 +72,10 @@ def unkw(n):
 
 class OFn(TD.DFn):
     def __init__(self, qualname, leanname, params, ret, self_type=None, self_attrs=None, state=None, ctor=False,
-                 locals=None, ignore=()):
+                 locals=None, ignore=(), extern=False, closure=None):
         TD.DFn.__init__(self, qualname, leanname, params, ret, self_type)
+        self.closure = closure                     # free variable bound by the enclosing decorator: the wrapped method
+        self.extern = extern                       # translated elsewhere (Generated/TzKernels.lean): only called here
         self.self_attrs = dict(self_attrs or {})   # read-only attributes passed as parameters self_<attr>
         self.state = list(state or [])             # mutable attributes: threaded through and returned
         self.ctor = ctor                           # constructor: the result is the tuple of `state`
@@ -121,6 +124,15 @@ class OTr(TD.DTr):
             return [], e.value, "StrLit"
         if isinstance(e, ast.UnaryOp) and isinstance(e.op, ast.UAdd):
             return self.expr(e.operand)
+        if isinstance(e, ast.Attribute) and isinstance(e.value, ast.Name) and e.value.id == "time" and e.attr == "timezone" \
+                and self.spec.self_type == "TZ.RangeZone":
+            return [], "(ObjPy.timeTimezone self)", "Int"
+        if isinstance(e, ast.Attribute) and e.attr == "tm_isdst" and isinstance(e.value, ast.Call) \
+                and isinstance(e.value.func, ast.Attribute) and isinstance(e.value.func.value, ast.Name) \
+                and e.value.func.value.id == "time" and e.value.func.attr == "localtime" and len(e.value.args) == 1 \
+                and self.spec.self_type == "TZ.RangeZone":
+            b, t, ty = self.expr(e.value.args[0])
+            return b, "(ObjPy.localtimeIsdst self %s)" % self.coerce(t, ty, "Ts"), "Int"
         if isinstance(e, ast.Dict) and not e.keys:
             return [], "({} : ObjPy.Kw)", "Kw"
         if self.self_attr(e) and ("self_" + e.attr) in self.types:
@@ -130,6 +142,9 @@ class OTr(TD.DTr):
             if ty == "OptZComp":          # attribute of a possibly-None component: AttributeError
                 n = self.fresh()
                 b, t, ty = b + [(n, "DtPy.attr %s" % t, "ZComp")], n, "ZComp"
+            if ty == "ZComp" and e.attr == "tzname" and self.types.get("self_tzname_of") == "NameFn":
+                # the TZNAME of a component object: an uninterpreted field of the object (ICal.ZComp carries none)
+                return b, "(self_tzname_of %s)" % t, "OptCStr"
             if ty in OBJ_ATTRS and e.attr in OBJ_ATTRS[ty]:
                 tmpl, rty = OBJ_ATTRS[ty][e.attr]
                 return b, tmpl % t, rty
@@ -140,6 +155,8 @@ class OTr(TD.DTr):
     def binop(self, e):
         bl, l, tl = self.expr(e.left)
         br, r, tr = self.expr(e.right)
+        if {tl, tr} == {"Ts", "Int"} and isinstance(e.op, ast.Add):       # float timestamp + int seconds
+            return bl + br, "(%s + %s)" % (self.coerce(l, tl, "Ts"), self.coerce(r, tr, "Ts")), "Ts"
         if tl == "Jan1" and tr in ("OptDelta", "Delta") and isinstance(e.op, ast.Add):
             n = self.fresh()
             return bl + br + [(n, "ObjPy.jan1Add %s %s" % (l, self.coerce(r, tr, "OptDelta")), "OrdSec")], n, "OrdSec"
@@ -190,6 +207,12 @@ class OTr(TD.DTr):
     def call(self, e):
         f = e.func
         if isinstance(f, ast.Name):
+            if self.spec.closure and f.id == self.spec.closure and len(e.args) == 2 and isinstance(e.args[0], ast.Name) \
+                    and e.args[0].id == "self" and not e.keywords:         # the wrapped method: f(self, dt)
+                b, t, ty = self.expr(e.args[1])
+                if ty != "Dt": raise Untranslatable("wrapped method applied to %s" % ty)
+                n = self.fresh()
+                return b + [(n, "%s %s" % (f.id, t), self.spec.ret)], n, self.spec.ret
             if f.id == "len" and len(e.args) == 1:
                 b, t, ty = self.expr(e.args[0])
                 if ty == "CStr" or ty in ELEM: return b, "((%s).length : Int)" % t, "Int"
@@ -198,6 +221,10 @@ class OTr(TD.DTr):
                 if ty == "CStr":
                     n = self.fresh()
                     return b + [(n, "ObjPy.pyInt %s" % t, "Int")], n, "Int"
+            if f.id == "getattr" and len(e.args) == 3 and isinstance(e.args[1], ast.Constant) and e.args[1].value == "fold" \
+                    and isinstance(e.args[2], ast.Constant) and e.args[2].value is None:
+                b, t, ty = self.expr(e.args[0])
+                if ty == "Dt": return b, "(some (DtPy.foldOf %s))" % t, "OptInt"      # datetimes always have `fold` (Python >= 3.6)
             if f.id == "isinstance" and len(e.args) == 2:
                 b, t, ty = self.expr(e.args[0])
                 if ty == "Zone" and isinstance(e.args[1], ast.Name) and e.args[1].id == "tzrange":
@@ -374,6 +401,7 @@ class OTr(TD.DTr):
         except Untranslatable:
             return None
         c = c.replace("(", "").replace(")", "").strip()
+        if not b and "False" in [x.strip() for x in c.split(" ∧ ")] and " ∨ " not in c: return False
         if not b and c == "¬ True": return False
         if not b and c == "¬ False": return True
         return None
@@ -607,7 +635,8 @@ class OTr(TD.DTr):
         self.types = {k_: v for k_, v in self.types.items() if k_ not in dict(sp.params)}
         for n, t in pnames: self.types[n] = t
         for a, t in sp.self_attrs.items(): self.types["self_" + a] = t
-        params = (["(self : %s)" % sp.self_type] if sp.self_type else []) + \
+        params = (["(%s : DtPy.Dt → Py.R %s)" % (sp.closure, TB.lean_rty(sp.ret))] if sp.closure else []) + \
+            (["(self : %s)" % sp.self_type] if sp.self_type else []) + \
             ["(self_%s : %s)" % (a, TB.lean_ty(t)) for a, t in sp.self_attrs.items()] + \
             ([] if sp.ctor else ["(self_%s : %s)" % (a, TB.lean_ty(t)) for a, t in sp.state]) + \
             ["(%s : %s)" % (n, TB.lean_ty(t)) for n, t in pnames]
@@ -633,6 +662,7 @@ def translate_files(src_root, groups):
         for sp in specs:
             sp.tree = tree
         for sp in specs:
+            if sp.extern: continue
             tr = OTr(tree, allspecs, sp)
             tr.all_specs = allspecs
             text, fp = tr.function()
@@ -653,6 +683,7 @@ OBJ_GROUPS = [
             locals={"lastcompdt": "OptDt", "lastcomp": "OptZComp"}),
         OFn("_tzicalvtz.utcoffset", "tzicalvtz_utcoffset", [("dt", "Dt")], "TD", V, state=CACHE),
         OFn("_tzicalvtz.dst", "tzicalvtz_dst", [("dt", "Dt")], "TD", V, state=CACHE),
+        OFn("_tzicalvtz.tzname", "tzicalvtz_tzname", [("dt", "Dt")], "OptCStr", V, self_attrs={"tzname_of": "NameFn"}, state=CACHE),
         OFn("tzrange.__init__", "tzrange_init", [("stdabbr", "OptPStr"), ("stdoffset", "OptInt"), ("dstabbr", "OptPStr"),
                                                  ("dstoffset", "OptInt"), ("start", "DArg"), ("end", "DArg")], "Zone",
             state=ZFIELDS, ctor=True, ignore={"_dst_base_offset_"}),
@@ -664,6 +695,23 @@ OBJ_GROUPS = [
             state=ZFIELDS, ctor=True, ignore={"_s"}),
     ]),
 ]
+L = "TZ.RangeZone"
+OBJ_GROUPS[0][1].extend([
+    OFn("_datetime_to_timestamp", "datetimeToTimestamp", [("dt", "Dt")], "Ts", extern=True),
+    OFn("tzlocal._naive_is_dst", "tzlocal_naiveIsDst", [("dt", "Dt")], "Int", L),
+    OFn("tzlocal.is_ambiguous", "tzlocal_isAmbiguous", [("dt", "Dt")], "Bool", L),
+    OFn("tzlocal._isdst", "tzlocal_isdst", [("dt", "Dt"), ("fold_naive", "Bool")], "Int", L),
+    OFn("tzlocal.utcoffset", "tzlocal_utcoffset", [("dt", "Dt")], "TD", L),
+    OFn("tzlocal.dst", "tzlocal_dst", [("dt", "Dt")], "TD", L),
+    OFn("tzlocal.tzname", "tzlocal_tzname", [("dt", "Dt")], "Str", L),
+])
+OBJ_GROUPS.append(("tz/_common.py", [
+    # the decorator of every `fromutc`: its inner function, with the wrapped method `f` as a parameter
+    OFn("_validate_fromutc_inputs.fromutc", "validateFromutcInputs", [("dt", "Dt")], "Dt", closure="f"),
+]))
+# tzlocal reads its own attributes of the same zone record (additive to translate_dt's table for tzrangebase)
+TD.ATTRS[L].update({"_dst_saved": ("(DtPy.tdSeconds self.saving)", "TD"), "_hasdst": ("self.hasdst", "Bool"),
+                    "_tznames": ("[self.stdAbbr, self.dstAbbr]", "StrList")})
 TD.ATTRS[V] = {"_comps": ("self", "ZCompList")}
 TD.ATTRS["TzStr.Zone"] = {k: (v[0] % "self", v[1]) for k, v in OBJ_ATTRS["Zone"].items()}
 
